@@ -325,7 +325,11 @@ def main():
         "checks": checks,
         "not_applicable": sorted(na, key=lambda d: d["property_id"]),
         "notes": "exit 0 held / 1 VIOLATION / 2 machinery failure (never a verdict). known_findings.json is read-only "
-                 "at run time. See DESIGN.md.",
+                 "at run time. An exception raised below a pyoma2 frame on an input the specification enumerated, and a call "
+                 "that does not return within 300 s (VERIF_CASE_LIMIT_S), are violations; a check still running after 1 h "
+                 "(quick) / 6 h (thorough) ends with exit 2. Behaviour coverage beyond the listed properties: "
+                 "./check extra:session | extra:poser | extra:bell | extra:pickmenu (observations only, not registered as "
+                 "checks). See DESIGN.md section 0.",
     }
     with open(os.path.join(HERE, "MANIFEST.json"), "w") as f:
         json.dump(man, f, indent=1)
